@@ -739,7 +739,19 @@ def dispatch_statements(block, runvar="run_number"):
 
 
 # ------------------------------------------------------------------------------------------------ semantic fallback
-def reconstruct(what, runs, domains, known, matches, no_map, more=None):
+def parse_coq_arms(text, name):
+    """canonical arms of `Definition <name> : list (rpat * option N) := [..].` in a generated file, or None"""
+    m = re.search(r"Definition\s+%s\b[^=]*:=\s*\[(.*?)\]\s*\." % re.escape(name), text, re.S)
+    if not m:
+        return None
+    arms = []
+    for kind, k, v in re.findall(r"\(\s*(PEq|PGe|PAny)\s*(\d*)\s*,\s*(None|Some\s+\d+)\s*\)", m.group(1)):
+        val = None if v == "None" else int(v.split()[1])
+        arms.append(({"PEq": "eq", "PGe": "ge", "PAny": "any"}[kind], int(k) if k else None, val))
+    return arms or None
+
+
+def reconstruct(what, runs, domains, known, matches, no_map, more=None, prior=None):
     """Reconstruct the dispatches the front end could not read from the implementation's answers.
 
     runs     candidate run numbers (sorted; contain 0, u32::MAX-1, u32::MAX)
@@ -749,8 +761,11 @@ def reconstruct(what, runs, domains, known, matches, no_map, more=None):
     no_map(run) -> bool : the implementation answers "no map" for every entry at this run
     more([run, ..])     : make the implementation's answers for further runs available (None: no refinement)
 
-    Where the implementation has no map at all, a dispatch that is hidden behind another one's error cannot be observed:
-    every reconstructed dispatch says None there (the composition is the same function of the run number).
+    Where the implementation has no map at all, a dispatch that is hidden behind another one's error cannot be observed
+    (the composition is the same function of the run number whatever it says there).  `prior` = {family: function
+    run -> value | None} (the PINNED configuration's dispatch): where the implementation has no map, the prior's
+    selection is taken if it, too, predicts "no map" there - so that an unchanged composite function is written with
+    the pinned arms - else every reconstructed dispatch says None there.
     When two consecutive candidates that are not neighbouring integers select differently, the boundary is not at a
     literal of the source: it is located by bisection (one change per gap assumed, as everywhere between candidates).
     returns {family: canonical arms} for the families not in `known`; with every family known this is a pure check."""
@@ -763,10 +778,16 @@ def reconstruct(what, runs, domains, known, matches, no_map, more=None):
         sel = {f: apply_arms(known[f], r) for f in known}
         choice = None
         if no_map(r):
-            trial = dict(sel)
-            trial.update({f: None for f in unknown})
-            if matches(trial, r):
-                choice = trial
+            if prior is not None and all(f in prior for f in unknown):
+                trial = dict(sel)
+                trial.update({f: prior[f](r) for f in unknown})
+                if matches(trial, r):
+                    choice = trial
+            if choice is None:
+                trial = dict(sel)
+                trial.update({f: None for f in unknown})
+                if matches(trial, r):
+                    choice = trial
         else:
             doms = []
             for f in unknown:
